@@ -413,4 +413,25 @@ theorem M_sound (cfg : Config) (S0 : State) (p Bm C T k : Nat) (committee : Sync
   rw [hp] at this
   cases this
 
+/-- from capella on the payload's parent hash is compared with the state's latest payload header ALWAYS — also when that
+header is still the default one (bellatrix's merge-complete gate is gone): a payload the model accepts has the parent
+hash of the header in the state -/
+theorem payload_parent_hash_checked_from_capella (cfg : Config) (s s' : State) (block : SignedBlock) (payload : ExecutionPayload)
+    (hf : s.fork ≥ .capella) (h : BlockM.processExecutionPayload cfg s block payload = .ok s') :
+    ∃ latest, s.latest_execution_payload_header = some latest ∧ payload.fields.parent_hash = latest.block_hash := by
+  have hnb : s.fork ≠ .bellatrix := by intro hb; rw [hb] at hf; exact absurd hf (by decide)
+  unfold BlockM.processExecutionPayload at h
+  simp only [Zrnt.Proofs.BlockM.guard_bind, Zrnt.Proofs.BlockM.ofOpt_bind] at h
+  split at h
+  · cases hl : s.latest_execution_payload_header with
+    | none => rw [hl] at h; cases h
+    | some latest =>
+      rw [hl] at h
+      simp only [hnb, if_false, Bool.not_true, Bool.false_or] at h
+      split at h
+      · rename_i hp
+        exact ⟨latest, rfl, by simpa using hp⟩
+      · cases h
+  · cases h
+
 end Zrnt.Proofs.C03
